@@ -61,6 +61,8 @@ func main() {
 			genC08(rng, *n, *tier)
 		case "C09":
 			genC09(rng, *n, *tier)
+		case "C20":
+			genC20(rng, *n, *tier)
 		default:
 			fmt.Fprintln(os.Stderr, "unknown group")
 			os.Exit(2)
